@@ -1,103 +1,32 @@
 (* Model of what `compute_checksum` (src/checkpoint.rs) runs: SHA-256.
    Definitions only; proofs are in Proofs/CkptSha256.v.
 
-     sha256_spec data           FIPS 180-4 section 6.2, one shot: pad the whole message (5.1.1), cut it into
-                                64-byte blocks (5.2.1), fold the compression function over them from
-                                the initial hash value (5.3.3), emit the 8 words big-endian.
-     sha_new / sha_update / sha_finalize
-                                the STREAMING hasher the Rust code drives (`Sha256::new()`,
-                                `Digest::update`, `Digest::finalize`), transcribed from
-                                sha2-0.10 `Sha256VarCore` + block-buffer-0.10 `BlockBuffer<U64, Eager>`
-                                (`digest_blocks`, `len64_padding_be`): a 64-byte buffer that is
-                                compressed as soon as it is full, a block counter, and the padding
-                                written into the buffer at `finalize`.
-     sha256 data                = sha_finalize (sha_update sha_new data): the body of compute_checksum
-                                before the `{:x}` formatting (Store.compute_checksum sha256 data is the
-                                whole function).
-   A byte is a Z in 0..255. *)
+   1. Section MD: the hash construction, generic in the compression function
+        md_spec                   FIPS 180-4 section 6.2, one shot: pad the whole message (5.1.1), cut it
+                                  into 64-byte blocks (5.2.1), fold the compression function over them from
+                                  the initial hash value, emit the digest.
+        md_new / md_update / md_finalize
+                                  the STREAMING hasher the Rust code drives (`Sha256::new()`,
+                                  `Digest::update`, `Digest::finalize`), transcribed from sha2-0.10
+                                  `Sha256VarCore` + block-buffer-0.10 `BlockBuffer<U64, Eager>`
+                                  (`digest_blocks`, `len64_padding_be`): a 64-byte buffer that is
+                                  compressed as soon as it is full, a block counter, and the padding
+                                  written into the buffer at `finalize`.
+        md_stream data            = md_finalize (md_update md_new data): the body of compute_checksum
+                                  before the `{:x}` formatting.
+   2. Section FIPS: the SHA-256 compression function (FIPS 180-4 4.1.2, 4.2.2, 5.3.3, 6.2.2), written
+      once over an abstract 32-bit word type with its operations (`wordops`).
+   3. Two instances of the word operations:
+        ops_z    words are Z in 0..2^32-1 (the reference; no primitive types)      -> sha256_z, sha256_spec_z
+        ops_int  words are Coq's primitive 63-bit machine integers holding values below 2^32 (fast: this
+                 is what the correspondence run evaluates)                           -> sha256, sha256_spec
+      The two differ ONLY in the eight word operations; they are compared with each other inside Coq
+      on the test vectors and on every short `sum` case of the correspondence run (Corr/C12.v).
+   Store.compute_checksum sha256 data is the whole Rust function. A byte is a Z in 0..255. *)
 From Coq Require Import List ZArith Bool Uint63.
 From IB Require Import Ckpt.Bincode.
 Import ListNotations.
 Open Scope Z_scope.
-Local Open Scope uint63_scope.
-
-(* words are native 63-bit machine integers (Coq's primitive Uint63) holding values below 2^32 *)
-Definition mask32 : int := 0xffffffff%uint63.
-Definition add32 (a b : int) : int := (a + b) land mask32.
-Definition rotr (n x : int) : int := (x >> n) lor ((x << (32 - n)) land mask32).
-Definition shr (n x : int) : int := x >> n.
-Definition not32 (x : int) : int := x lxor mask32.
-
-(* FIPS 180-4 4.1.2 *)
-Definition ch (x y z : int) : int := (x land y) lxor (not32 x land z).
-Definition maj (x y z : int) : int := ((x land y) lxor (x land z)) lxor (y land z).
-Definition bsig0 (x : int) : int := (rotr 2 x lxor rotr 13 x) lxor rotr 22 x.
-Definition bsig1 (x : int) : int := (rotr 6 x lxor rotr 11 x) lxor rotr 25 x.
-Definition ssig0 (x : int) : int := (rotr 7 x lxor rotr 18 x) lxor shr 3 x.
-Definition ssig1 (x : int) : int := (rotr 17 x lxor rotr 19 x) lxor shr 10 x.
-
-(* FIPS 180-4 4.2.2 *)
-Definition sha_k : list int :=
-  [0x428a2f98; 0x71374491; 0xb5c0fbcf; 0xe9b5dba5; 0x3956c25b; 0x59f111f1; 0x923f82a4; 0xab1c5ed5;
-   0xd807aa98; 0x12835b01; 0x243185be; 0x550c7dc3; 0x72be5d74; 0x80deb1fe; 0x9bdc06a7; 0xc19bf174;
-   0xe49b69c1; 0xefbe4786; 0x0fc19dc6; 0x240ca1cc; 0x2de92c6f; 0x4a7484aa; 0x5cb0a9dc; 0x76f988da;
-   0x983e5152; 0xa831c66d; 0xb00327c8; 0xbf597fc7; 0xc6e00bf3; 0xd5a79147; 0x06ca6351; 0x14292967;
-   0x27b70a85; 0x2e1b2138; 0x4d2c6dfc; 0x53380d13; 0x650a7354; 0x766a0abb; 0x81c2c92e; 0x92722c85;
-   0xa2bfe8a1; 0xa81a664b; 0xc24b8b70; 0xc76c51a3; 0xd192e819; 0xd6990624; 0xf40e3585; 0x106aa070;
-   0x19a4c116; 0x1e376c08; 0x2748774c; 0x34b0bcb5; 0x391c0cb3; 0x4ed8aa4a; 0x5b9cca4f; 0x682e6ff3;
-   0x748f82ee; 0x78a5636f; 0x84c87814; 0x8cc70208; 0x90befffa; 0xa4506ceb; 0xbef9a3f7; 0xc67178f2]%uint63.
-
-(* FIPS 180-4 5.3.3 *)
-Record hstate := mk_h { ha : int; hb : int; hc : int; hd : int; he : int; hf : int; hg : int; hh : int }.
-Definition sha_h0 : hstate :=
-  mk_h 0x6a09e667 0xbb67ae85 0x3c6ef372 0xa54ff53a 0x510e527f 0x9b05688c 0x1f83d9ab 0x5be0cd19.
-
-(* four bytes, big-endian, to a word; a word to four bytes *)
-Definition byte_int (b : Z) : int := Uint63.of_Z b land 255.
-Fixpoint be_words (l : bytes) : list int :=
-  match l with
-  | b0 :: b1 :: b2 :: b3 :: r =>
-      ((byte_int b0 << 24) lor (byte_int b1 << 16) lor (byte_int b2 << 8) lor byte_int b3) :: be_words r
-  | _ => []
-  end.
-Definition word_bytes (w : int) : bytes :=
-  [Z.land (Uint63.to_Z (w >> 24)) 255%Z; Z.land (Uint63.to_Z (w >> 16)) 255%Z;
-   Z.land (Uint63.to_Z (w >> 8)) 255%Z; Z.land (Uint63.to_Z w) 255%Z].
-
-(* 6.2.2 step 1: the message schedule. `w` is the window W[t-16 .. t-1] (oldest first); emits
-   W[t], W[t+1], ... for n steps *)
-Fixpoint schedule (n : nat) (w : list int) : list int :=
-  match n with
-  | O => []
-  | S n' =>
-      match w with
-      | w0 :: rest =>
-          let next := add32 (add32 (ssig1 (nth 13 rest 0)) (nth 8 rest 0))
-                            (add32 (ssig0 (nth 0 rest 0)) w0) in
-          w0 :: schedule n' (rest ++ [next])
-      | [] => []
-      end
-  end.
-
-(* 6.2.2 step 3: one round *)
-Definition sha_round (s : hstate) (kw : int * int) : hstate :=
-  let t1 := add32 (add32 (add32 (hh s) (bsig1 (he s))) (add32 (ch (he s) (hf s) (hg s)) (fst kw)))
-                  (snd kw) in
-  let t2 := add32 (bsig0 (ha s)) (maj (ha s) (hb s) (hc s)) in
-  mk_h (add32 t1 t2) (ha s) (hb s) (hc s) (add32 (hd s) t1) (he s) (hf s) (hg s).
-
-(* 6.2.2: the compression function on one 64-byte block (sha2: `compress256(state, &[block])`) *)
-Definition compress (h : hstate) (block : bytes) : hstate :=
-  let w := schedule 64 (be_words block) in
-  let s := fold_left sha_round (combine sha_k w) h in
-  mk_h (add32 (ha h) (ha s)) (add32 (hb h) (hb s)) (add32 (hc h) (hc s)) (add32 (hd h) (hd s))
-       (add32 (he h) (he s)) (add32 (hf h) (hf s)) (add32 (hg h) (hg s)) (add32 (hh h) (hh s)).
-
-Definition digest_of (h : hstate) : bytes :=
-  word_bytes (ha h) ++ word_bytes (hb h) ++ word_bytes (hc h) ++ word_bytes (hd h)
-  ++ word_bytes (he h) ++ word_bytes (hf h) ++ word_bytes (hg h) ++ word_bytes (hh h).
-
-Local Close Scope uint63_scope.
 
 (* a 64-bit number as 8 bytes, big-endian *)
 Definition be64 (n : Z) : bytes :=
@@ -105,71 +34,240 @@ Definition be64 (n : Z) : bytes :=
    Z.land (Z.shiftr n 32) 255; Z.land (Z.shiftr n 24) 255; Z.land (Z.shiftr n 16) 255;
    Z.land (Z.shiftr n 8) 255; Z.land n 255].
 
-(* ------------------------------------------------------------------ one-shot specification *)
 (* 5.1.1: 0x80, then k zero bytes with len + 1 + k = 56 (mod 64), then the bit length *)
 Definition sha_pad (len : Z) : bytes :=
   128 :: repeat 0 (Z.to_nat ((55 - len) mod 64)) ++ be64 (8 * len).
 
-(* fold the compression function over the 64-byte blocks of l; fuel >= number of blocks *)
-Fixpoint hash_blocks (fuel : nat) (h : hstate) (l : bytes) : hstate :=
-  match fuel with
-  | O => h
-  | S f =>
-      match l with
-      | [] => h
-      | _ :: _ => hash_blocks f (compress h (firstn 64 l)) (skipn 64 l)
-      end
-  end.
-(* enough fuel for l: one step consumes 64 bytes (written so that no unary number of the size of
-   the message is built) *)
+(* enough fuel to consume l in 64-byte steps (written so that no unary number of the size of the
+   message is built) *)
 Definition blocks_fuel (l : bytes) : nat := S (Z.to_nat (Z.of_nat (length l) / 64)).
 
-Definition sha256_spec (data : bytes) : bytes :=
-  let m := data ++ sha_pad (Z.of_nat (length data)) in
-  digest_of (hash_blocks (blocks_fuel m) sha_h0 m).
+(* ------------------------------------------------------------------ 1. the construction *)
+Section MD.
+  Variable hst : Type.                        (* the chaining value (8 words) *)
+  Variable compress : hst -> bytes -> hst.    (* sha2: compress256(state, &[block]) *)
+  Variable h0 : hst.                          (* the initial hash value *)
+  Variable digest_of : hst -> bytes.          (* the words, big-endian *)
 
-(* ------------------------------------------------------------------ streaming hasher *)
-(* CoreWrapper<Sha256VarCore>: the hash state, the number of blocks compressed so far
-   (`block_len`), and the BlockBuffer (its first `pos` bytes; always pos < 64: Eager) *)
-Record hasher := mk_hasher { hs_state : hstate; hs_blocks : Z; hs_buf : bytes }.
+  (* fold the compression function over the 64-byte blocks of l; fuel >= number of blocks *)
+  Fixpoint hash_blocks (fuel : nat) (h : hst) (l : bytes) : hst :=
+    match fuel with
+    | O => h
+    | S f =>
+        match l with
+        | [] => h
+        | _ :: _ => hash_blocks f (compress h (firstn 64 l)) (skipn 64 l)
+        end
+    end.
 
-Definition sha_new : hasher := mk_hasher sha_h0 0 [].
+  (* one-shot specification *)
+  Definition md_spec (data : bytes) : bytes :=
+    let m := data ++ sha_pad (Z.of_nat (length data)) in
+    digest_of (hash_blocks (blocks_fuel m) h0 m).
 
-(* BlockBuffer::digest_blocks(input, |blocks| { block_len += blocks.len(); compress256(state, blocks) }) *)
-Definition sha_update (hs : hasher) (input : bytes) : hasher :=
-  let pos := length (hs_buf hs) in
-  let rem := (64 - pos)%nat in
-  if Nat.ltb (length input) rem then
-    (* `if n < rem { buffer[pos..][..n] = input; pos += n; return }` *)
-    mk_hasher (hs_state hs) (hs_blocks hs) (hs_buf hs ++ input)
-  else
-    (* `if pos != 0 { fill the buffer with input[..rem], compress it }` *)
-    let '(st, nb, input1) :=
-      match hs_buf hs with
-      | [] => (hs_state hs, hs_blocks hs, input)
-      | _ :: _ => (compress (hs_state hs) (hs_buf hs ++ firstn rem input), hs_blocks hs + 1,
-                   skipn rem input)
-      end in
-    (* `let (blocks, leftover) = split_blocks(input); compress(blocks); buffer = leftover` *)
-    let nfull := (length input1 / 64)%nat in
-    let full := firstn (nfull * 64) input1 in
-    mk_hasher (hash_blocks nfull st full) (nb + Z.of_nat nfull) (skipn (nfull * 64) input1).
+  (* CoreWrapper<Sha256VarCore>: the hash state, the number of blocks compressed so far
+     (`block_len`), and the BlockBuffer (its first `pos` bytes; always pos < 64: Eager) *)
+  Record hasher := mk_hasher { hs_state : hst; hs_blocks : Z; hs_buf : bytes }.
 
-(* Sha256VarCore::finalize_variable_core: bit_len = 8 * (pos + block_len * 64);
-   buffer.len64_padding_be(bit_len, compress): buffer[pos] = 0x80, zero the rest; if fewer than 8
-   bytes are left after the 0x80, compress and start an all-zero block; the last 8 bytes are the
-   big-endian bit length; compress. *)
-Definition sha_finalize (hs : hasher) : bytes :=
-  let pos := length (hs_buf hs) in
-  let bit_len := 8 * (Z.of_nat pos + hs_blocks hs * 64) in
-  let b1 := hs_buf hs ++ [128] in
-  let st :=
-    if Nat.leb (length b1) 56 then
-      compress (hs_state hs) (b1 ++ repeat 0 (56 - length b1) ++ be64 bit_len)
+  Definition md_new : hasher := mk_hasher h0 0 [].
+
+  (* BlockBuffer::digest_blocks(input, |blocks| { block_len += blocks.len(); compress256(state, blocks) }) *)
+  Definition md_update (hs : hasher) (input : bytes) : hasher :=
+    let pos := length (hs_buf hs) in
+    let rem := (64 - pos)%nat in
+    if Nat.ltb (length input) rem then
+      (* `if n < rem { buffer[pos..][..n] = input; pos += n; return }` *)
+      mk_hasher (hs_state hs) (hs_blocks hs) (hs_buf hs ++ input)
     else
-      compress (compress (hs_state hs) (b1 ++ repeat 0 (64 - length b1)))
-               (repeat 0 56 ++ be64 bit_len) in
-  digest_of st.
+      (* `if pos != 0 { fill the buffer with input[..rem], compress it }` *)
+      let '(st, nb, input1) :=
+        match hs_buf hs with
+        | [] => (hs_state hs, hs_blocks hs, input)
+        | _ :: _ => (compress (hs_state hs) (hs_buf hs ++ firstn rem input), hs_blocks hs + 1,
+                     skipn rem input)
+        end in
+      (* `let (blocks, leftover) = split_blocks(input); compress(blocks); buffer = leftover` *)
+      let nfull := (length input1 / 64)%nat in
+      let full := firstn (nfull * 64) input1 in
+      mk_hasher (hash_blocks nfull st full) (nb + Z.of_nat nfull) (skipn (nfull * 64) input1).
 
-(* compute_checksum(data) before formatting: new, one update with the whole slice, finalize *)
-Definition sha256 (data : bytes) : bytes := sha_finalize (sha_update sha_new data).
+  (* Sha256VarCore::finalize_variable_core: bit_len = 8 * (pos + block_len * 64);
+     buffer.len64_padding_be(bit_len, compress): buffer[pos] = 0x80, zero the rest; if fewer than 8
+     bytes are left after the 0x80, compress and start an all-zero block; the last 8 bytes are the
+     big-endian bit length; compress. *)
+  Definition md_finalize (hs : hasher) : bytes :=
+    let pos := length (hs_buf hs) in
+    let bit_len := 8 * (Z.of_nat pos + hs_blocks hs * 64) in
+    let b1 := hs_buf hs ++ [128] in
+    let st :=
+      if Nat.leb (length b1) 56 then
+        compress (hs_state hs) (b1 ++ repeat 0 (56 - length b1) ++ be64 bit_len)
+      else
+        compress (compress (hs_state hs) (b1 ++ repeat 0 (64 - length b1)))
+                 (repeat 0 56 ++ be64 bit_len) in
+    digest_of st.
+
+  (* compute_checksum(data) before formatting: new, one update with the whole slice, finalize *)
+  Definition md_stream (data : bytes) : bytes := md_finalize (md_update md_new data).
+End MD.
+Arguments hash_blocks {hst} compress fuel h l.
+Arguments md_spec {hst} compress h0 digest_of data.
+Arguments mk_hasher {hst} hs_state hs_blocks hs_buf.
+Arguments hs_state {hst} h.
+Arguments hs_blocks {hst} h.
+Arguments hs_buf {hst} h.
+Arguments md_new {hst} h0.
+Arguments md_update {hst} compress hs input.
+Arguments md_finalize {hst} compress digest_of hs.
+Arguments md_stream {hst} compress h0 digest_of data.
+
+(* ------------------------------------------------------------------ 2. the compression function *)
+(* the operations on 32-bit words the algorithm needs *)
+Record wordops (W : Type) := mk_ops {
+  w_add : W -> W -> W;                  (* addition modulo 2^32 *)
+  w_and : W -> W -> W;
+  w_xor : W -> W -> W;
+  w_not : W -> W;                       (* complement within 32 bits *)
+  w_rotr : Z -> W -> W;                 (* ROTR^n, 0 < n < 32 *)
+  w_shr : Z -> W -> W;                  (* SHR^n *)
+  w_of_bytes : Z -> Z -> Z -> Z -> W;   (* four bytes, big-endian, to a word *)
+  w_bytes : W -> bytes;                 (* a word to four bytes, big-endian *)
+  w_k : list W;                         (* the 64 round constants (4.2.2) as words *)
+  w_h0 : list W                         (* the 8 words of the initial hash value (5.3.3) *)
+}.
+Arguments w_add {W} w. Arguments w_and {W} w. Arguments w_xor {W} w. Arguments w_not {W} w.
+Arguments w_rotr {W} w. Arguments w_shr {W} w. Arguments w_of_bytes {W} w. Arguments w_bytes {W} w.
+Arguments w_k {W} w. Arguments w_h0 {W} w.
+
+(* FIPS 180-4 4.2.2 *)
+Definition sha_k : list Z :=
+  [0x428a2f98; 0x71374491; 0xb5c0fbcf; 0xe9b5dba5; 0x3956c25b; 0x59f111f1; 0x923f82a4; 0xab1c5ed5;
+   0xd807aa98; 0x12835b01; 0x243185be; 0x550c7dc3; 0x72be5d74; 0x80deb1fe; 0x9bdc06a7; 0xc19bf174;
+   0xe49b69c1; 0xefbe4786; 0x0fc19dc6; 0x240ca1cc; 0x2de92c6f; 0x4a7484aa; 0x5cb0a9dc; 0x76f988da;
+   0x983e5152; 0xa831c66d; 0xb00327c8; 0xbf597fc7; 0xc6e00bf3; 0xd5a79147; 0x06ca6351; 0x14292967;
+   0x27b70a85; 0x2e1b2138; 0x4d2c6dfc; 0x53380d13; 0x650a7354; 0x766a0abb; 0x81c2c92e; 0x92722c85;
+   0xa2bfe8a1; 0xa81a664b; 0xc24b8b70; 0xc76c51a3; 0xd192e819; 0xd6990624; 0xf40e3585; 0x106aa070;
+   0x19a4c116; 0x1e376c08; 0x2748774c; 0x34b0bcb5; 0x391c0cb3; 0x4ed8aa4a; 0x5b9cca4f; 0x682e6ff3;
+   0x748f82ee; 0x78a5636f; 0x84c87814; 0x8cc70208; 0x90befffa; 0xa4506ceb; 0xbef9a3f7; 0xc67178f2].
+(* FIPS 180-4 5.3.3 *)
+Definition sha_iv : list Z :=
+  [0x6a09e667; 0xbb67ae85; 0x3c6ef372; 0xa54ff53a; 0x510e527f; 0x9b05688c; 0x1f83d9ab; 0x5be0cd19].
+
+Section FIPS.
+  Variable W : Type.
+  Variable ops : wordops W.
+  Let add := w_add ops.
+  Let xor := w_xor ops.
+  Let and := w_and ops.
+  Let rotr := w_rotr ops.
+  Let shr := w_shr ops.
+
+  (* FIPS 180-4 4.1.2 *)
+  Definition ch (x y z : W) : W := xor (and x y) (and (w_not ops x) z).
+  Definition maj (x y z : W) : W := xor (xor (and x y) (and x z)) (and y z).
+  Definition bsig0 (x : W) : W := xor (xor (rotr 2 x) (rotr 13 x)) (rotr 22 x).
+  Definition bsig1 (x : W) : W := xor (xor (rotr 6 x) (rotr 11 x)) (rotr 25 x).
+  Definition ssig0 (x : W) : W := xor (xor (rotr 7 x) (rotr 18 x)) (shr 3 x).
+  Definition ssig1 (x : W) : W := xor (xor (rotr 17 x) (rotr 19 x)) (shr 10 x).
+
+  Record hstate := mk_h { ha : W; hb : W; hc : W; hd : W; he : W; hf : W; hg : W; hh : W }.
+
+  Definition fips_h0 : hstate :=
+    let z := w_of_bytes ops 0 0 0 0 in
+    let iv := w_h0 ops in
+    mk_h (nth 0 iv z) (nth 1 iv z) (nth 2 iv z) (nth 3 iv z) (nth 4 iv z) (nth 5 iv z) (nth 6 iv z)
+         (nth 7 iv z).
+
+  Fixpoint be_words (l : bytes) : list W :=
+    match l with
+    | b0 :: b1 :: b2 :: b3 :: r => w_of_bytes ops b0 b1 b2 b3 :: be_words r
+    | _ => []
+    end.
+
+  (* 6.2.2 step 1: the message schedule. `w` is the window W[t-16 .. t-1] (oldest first); emits
+     W[t], W[t+1], ... for n steps *)
+  Fixpoint schedule (n : nat) (w : list W) : list W :=
+    match n with
+    | O => []
+    | S n' =>
+        match w with
+        | w0 :: rest =>
+            let next := add (add (ssig1 (nth 13 rest w0)) (nth 8 rest w0))
+                            (add (ssig0 (nth 0 rest w0)) w0) in
+            w0 :: schedule n' (rest ++ [next])
+        | [] => []
+        end
+    end.
+
+  (* 6.2.2 step 3: one round *)
+  Definition sha_round (s : hstate) (kw : W * W) : hstate :=
+    let t1 := add (add (add (hh s) (bsig1 (he s))) (add (ch (he s) (hf s) (hg s)) (fst kw)))
+                  (snd kw) in
+    let t2 := add (bsig0 (ha s)) (maj (ha s) (hb s) (hc s)) in
+    mk_h (add t1 t2) (ha s) (hb s) (hc s) (add (hd s) t1) (he s) (hf s) (hg s).
+
+  (* 6.2.2: the compression function on one 64-byte block *)
+  Definition fips_compress (h : hstate) (block : bytes) : hstate :=
+    let w := schedule 64 (be_words block) in
+    let s := fold_left sha_round (combine (w_k ops) w) h in
+    mk_h (add (ha h) (ha s)) (add (hb h) (hb s)) (add (hc h) (hc s)) (add (hd h) (hd s))
+         (add (he h) (he s)) (add (hf h) (hf s)) (add (hg h) (hg s)) (add (hh h) (hh s)).
+
+  Definition fips_digest (h : hstate) : bytes :=
+    w_bytes ops (ha h) ++ w_bytes ops (hb h) ++ w_bytes ops (hc h) ++ w_bytes ops (hd h)
+    ++ w_bytes ops (he h) ++ w_bytes ops (hf h) ++ w_bytes ops (hg h) ++ w_bytes ops (hh h).
+End FIPS.
+Arguments fips_h0 {W} ops.
+Arguments fips_compress {W} ops h block.
+Arguments fips_digest {W} ops h.
+
+(* ------------------------------------------------------------------ 3a. words as Z *)
+Definition zmask32 : Z := 4294967295.
+Definition ops_z : wordops Z :=
+  mk_ops Z
+    (fun a b => Z.land (a + b) zmask32)
+    Z.land
+    Z.lxor
+    (fun x => Z.lxor x zmask32)
+    (fun n x => Z.lor (Z.shiftr x n) (Z.land (Z.shiftl x (32 - n)) zmask32))
+    (fun n x => Z.shiftr x n)
+    (fun b0 b1 b2 b3 => ((Z.land b0 255 * 256 + Z.land b1 255) * 256 + Z.land b2 255) * 256 + Z.land b3 255)
+    (fun w => [Z.land (Z.shiftr w 24) 255; Z.land (Z.shiftr w 16) 255; Z.land (Z.shiftr w 8) 255;
+               Z.land w 255])
+    sha_k
+    sha_iv.
+
+Definition sha256_spec_z : bytes -> bytes :=
+  md_spec (fips_compress ops_z) (fips_h0 ops_z) (fips_digest ops_z).
+Definition sha256_z : bytes -> bytes :=
+  md_stream (fips_compress ops_z) (fips_h0 ops_z) (fips_digest ops_z).
+
+(* ------------------------------------------------------------------ 3b. words as machine integers *)
+Definition imask32 : int := 0xffffffff%uint63.
+Definition byte_int (b : Z) : int := (Uint63.of_Z b land 255)%uint63.
+Definition sha_k_int : list int := Eval vm_compute in map Uint63.of_Z sha_k.
+Definition sha_iv_int : list int := Eval vm_compute in map Uint63.of_Z sha_iv.
+Definition ops_int : wordops int :=
+  mk_ops int
+    (fun a b => ((a + b) land imask32)%uint63)
+    Uint63.land
+    Uint63.lxor
+    (fun x => (x lxor imask32)%uint63)
+    (fun n x => let k := Uint63.of_Z n in ((x >> k) lor ((x << (32 - k)) land imask32))%uint63)
+    (fun n x => (x >> Uint63.of_Z n)%uint63)
+    (fun b0 b1 b2 b3 =>
+       ((byte_int b0 << 24) lor (byte_int b1 << 16) lor (byte_int b2 << 8) lor byte_int b3)%uint63)
+    (fun w => [Z.land (Uint63.to_Z (w >> 24)%uint63) 255; Z.land (Uint63.to_Z (w >> 16)%uint63) 255;
+               Z.land (Uint63.to_Z (w >> 8)%uint63) 255; Z.land (Uint63.to_Z w) 255])
+    sha_k_int
+    sha_iv_int.
+
+Definition compress := fips_compress ops_int.
+Definition sha_h0 := fips_h0 ops_int.
+Definition digest_of := fips_digest ops_int.
+
+Definition sha256_spec : bytes -> bytes := md_spec compress sha_h0 digest_of.
+Definition sha_new := md_new sha_h0.
+Definition sha_update := md_update compress.
+Definition sha_finalize := md_finalize compress digest_of.
+Definition sha256 : bytes -> bytes := md_stream compress sha_h0 digest_of.
